@@ -827,6 +827,63 @@ let main_kvs file =
   Printf.printf "DONE calls=%d badcalls=%d puts=%d images=%d badimages=%d\n" !nq !nbadq !nput !nimg !nbadimg
 
 
+(* concurrent histories of the key-value store (values compared on their first 8 bytes, which carry the put's
+   identity): a sequential order respecting real time over the extracted model *)
+let main_kvsconc file =
+  let ic = open_in file in
+  let hist = ref [] and curh = ref None and pending = ref None in
+  let pad8 (l : byte0 list) = l in
+  (try while true do
+      let line = input_line ic in
+      match split_on ' ' line with
+      | "H" :: c :: i :: r :: _ -> curh := Some (int_of_string c, int_of_string i, int_of_string r)
+      | "KG" :: _ :: k :: _ -> pending := Some (`Get (n_of_string k))
+      | "KP" :: _ :: n :: rest ->
+        let rec prs k l acc = if k = 0 then List.rev acc else match l with
+            | key :: v :: r -> prs (k - 1) r ((n_of_string key, bytes_of_hex v) :: acc) | _ -> List.rev acc in
+        pending := Some (`Put (prs (int_of_string n) rest []))
+      | "KR" :: res :: rest ->
+        (match !pending, !curh with
+         | Some p, Some (cl, i, r) ->
+           let obs = match p, res, rest with
+             | `Get _, "1", vh :: _ -> `Val (bytes_of_hex vh)
+             | `Put _, "1", _ -> `Ok
+             | _ -> `Bad in
+           hist := (cl, i, r, p, obs) :: !hist
+         | _ -> ());
+        pending := None
+      | _ -> ()
+    done with End_of_file -> ());
+  ignore pad8;
+  let ops = Array.of_list (List.rev !hist) in
+  let n = Array.length ops in
+  let nodes = ref 0 and found = ref false and deepest = ref 0 in
+  let budget = 400000 in
+  let take8 l = take 8 l in
+  (* the model state restricted to what is observed: key -> first 8 bytes *)
+  let rec search (st : (n * byte0 list) list) donev k =
+    if !found || !nodes > budget then () else begin
+      incr nodes;
+      if k = n then found := true else begin
+        let minret = ref max_int in
+        Array.iteri (fun i (_, _, r, _, _) -> if not donev.(i) && r < !minret then minret := r) ops;
+        Array.iteri (fun i (_, inv, _, p, obs) ->
+            if not !found && not donev.(i) && inv < !minret then begin
+              let ok, st' = match p, obs with
+                | `Get key, `Val v -> (let cur = try List.assoc key st with Not_found -> take8 (zeros (n_of_int 4096)) in cur = v), st
+                | `Put pairs, `Ok -> true, List.fold_left (fun acc (key, v) -> (key, take8 v) :: List.remove_assoc key acc) st pairs
+                | _ -> false, st in
+              if ok then (donev.(i) <- true; search st' donev (k + 1); donev.(i) <- false)
+              else if k >= !deepest then deepest := k
+            end) ops
+      end
+    end in
+  search [] (Array.make n false) 0;
+  if !found then Printf.printf "N lin OK ops=%d nodes=%d\n" n !nodes
+  else if !nodes > budget then Printf.printf "N lin UNKNOWN ops=%d nodes=%d\n" n !nodes
+  else Printf.printf "N lin BAD no-sequential-order-explains-the-history ops=%d nodes=%d deepest=%d\n" n !nodes !deepest;
+  Printf.printf "DONE ops=%d\n" n
+
 (* concurrent histories of the simple server: a sequential order respecting real time under which the extracted
    specification gives exactly the observed replies *)
 let main_simpleconc file =
@@ -1076,6 +1133,7 @@ let () =
   | _ :: "xdr" :: file :: _ -> main_xdr file
   | _ :: "simple" :: file :: _ -> main_simple file
   | _ :: "simpleconc" :: file :: _ -> main_simpleconc file
+  | _ :: "kvsconc" :: file :: _ -> main_kvsconc file
   | _ :: "kvs" :: file :: _ -> main_kvs file
   | _ :: "seq" :: file :: rest -> main_seq file (rest <> ["noabs"])
   | _ :: file :: rest -> main_seq file (rest <> ["noabs"])
